@@ -1,14 +1,14 @@
-\* one reader (readers do not influence each other), two calls, Reset
+\* two readers walking concurrently with three writes
 SPECIFICATION MCSpec
 CONSTANTS
   NK = 3
   MaxW = 3
-  Readers = {1}
-  MaxCalls = 2
+  Readers = {1, 2}
+  MaxCalls = 1
   Ranges <- Ranges1
   VLens = {1}
-  WithReset = TRUE
-  CallOps = {"find", "iter"}
+  WithReset = FALSE
+  CallOps = {"iter"}
 VIEW MCView
 INVARIANTS TypeOK Accounting Sorted ImplAgrees ImplExplained CursorAgrees ForwardUp OnlyStored
 CHECK_DEADLOCK FALSE
